@@ -18,7 +18,8 @@ from .astutil import walk_shallow, dotted, call_attr, short, src, stmt_of, enclo
 # construct -> exception classes.  Each entry is documented CPython behaviour.
 CATALOGUE_DOC = [
     ('bytes.decode() / str.encode() with default "strict" errors', 'UnicodeDecodeError / UnicodeEncodeError'),
-    ('json.loads(text)', 'ValueError (json.JSONDecodeError)'),
+    ('json.loads(text)', 'ValueError (json.JSONDecodeError); RecursionError for input nested deeper than the interpreter recursion limit'),
+    ('read of a local name that is not bound on every path to the read', 'UnboundLocalError'),
     ('int(x) / int(x, base) / float(x) of non-constant text', 'ValueError'),
     ('tuple-unpacking of str.split(sep, n) into a fixed number of names', 'ValueError'),
     ('next(it) without default', 'StopIteration (RuntimeError when it leaves a generator)'),
@@ -331,10 +332,28 @@ class Escapes:
             return f'<mapping>[{ast.unparse(node.slice)}]'
         return type(node).__name__
 
+    def never_returns(self, f):
+        """no path of f reaches its normal exit (it always raises)"""
+        g = f.cfg
+        return not any(p in g.reachable() for (p, _) in g.exit.pred)
+
+    def unbound_reads(self, f):
+        from .defassign import DefiniteAssignment
+
+        def noreturn_node(n):
+            if n.kind != 'stmt' or not isinstance(n.ast, ast.Expr) or not isinstance(n.ast.value, ast.Call):
+                return False
+            cs = self.callees(f, n.ast.value)
+            return bool(cs) and all(self.never_returns(c) for c in cs)
+        return DefiniteAssignment(f, noreturn_node).maybe_unbound_reads()
+
     def sites(self, f):
         """yield (ast node, [class names], origin text)"""
         P = self.P
         body_nodes = list(walk_shallow(f.node))
+        if not isinstance(f.node, ast.Lambda):
+            for (cn, x) in self.unbound_reads(f):
+                yield x, ['UnboundLocalError'], self.site(f, x, '<read of a possibly unbound local>')
         for n in body_nodes:
             if isinstance(n, ast.Raise):
                 if n.exc is None:
@@ -377,7 +396,7 @@ class Escapes:
                     if strict:
                         yield n, ['UnicodeDecodeError'], self.site(f, n, '<bytes>.decode()')
                 elif d in ('json.loads', 'json_mod.loads', 'json.load'):
-                    yield n, ['ValueError'], self.site(f, n, self.kind(n))
+                    yield n, ['ValueError', 'RecursionError'], self.site(f, n, self.kind(n))
                 elif d in ('int', 'float') and n.args and not isinstance(n.args[0], ast.Constant):
                     a0 = n.args[0]
                     numeric = isinstance(a0, ast.Call) and dotted(a0.func) in ('len', 'int', 'float', 'round', 'time.time') or \
